@@ -205,7 +205,10 @@ func (e *Exec) checkPosts(retOrd int) {
 	}
 	for i, c := range e.contract.Ensures {
 		t := e.specBool(c, env)
-		e.oblige(fmt.Sprintf("post#%d@ret#%d", i, retOrd), "post", c.Text, t)
+		if o := e.oblige(fmt.Sprintf("post#%d@ret#%d", i, retOrd), "post", c.Text, t); o != nil {
+			o.postSt = e.st
+			o.ClauseTerm = t
+		}
 	}
 	e.checkFrame(retOrd)
 }
